@@ -1007,8 +1007,10 @@ func (m *Machine) execX(o *Op) (xout string, result any, hasResult bool) {
 		var x any
 		switch c := m.vars[o.R].(type) {
 		case at.List:
+			mutateNative(c.NativeSlice()) // an export belongs to the caller: the first one is scribbled over, the second one counts
 			x = c.NativeSlice()
 		case at.Object:
+			mutateNative(c.NativeDict())
 			x = c.NativeDict()
 		}
 		m.hold("NativeSlice/NativeDict", x)
